@@ -109,6 +109,27 @@ func Gen(t *rapid.T) *Case {
 			tx, ty := rapid.IntRange(1, 8).Draw(t, "tx"), rapid.IntRange(1, 8).Draw(t, "ty")
 			cfg.TileW, cfg.TileH = (im.W+tx-1)/tx, (im.H+ty-1)/ty
 		}
+		// the same encoder in HT mode (what the HTJ2K codecs use, but here with tiles, layers and
+		// progressions of the caller's choosing): CAP, TLM over all tile-parts, tile-parts per resolution
+		if kind != 1 && rapid.IntRange(0, 3).Draw(t, "ht") == 0 {
+			// (no explicit precincts: HT mode with several precincts is outside every listed domain,
+			// and the encoder panics there - DESIGN 8.4)
+			cfg.HT, cfg.Layers, cfg.PW, cfg.PH = true, 1, 0, 0
+			if cfg.TileW > 0 {
+				// HT mode and tiles: only grids whose tile origins are multiples of 2^levels and lie
+				// below the code-block size (elsewhere the encoder's tile geometry - KF-C19-1/2 -
+				// makes the HT header writer panic); the last column / row may be partial
+				cfg.Levels = min(cfg.Levels, 3)
+				cfg.CBW, cfg.CBH = 64, 64 // every tile origin below the code-block size (class of KF-C19-2)
+				cfg.TileW, cfg.TileH = rapid.SampledFrom([]int{16, 32}).Draw(t, "httw"), rapid.SampledFrom([]int{16, 32}).Draw(t, "htth")
+				if cfg.TileW < 1<<uint(cfg.Levels) || cfg.TileH < 1<<uint(cfg.Levels) {
+					cfg.Levels = 2
+				}
+			}
+			if im.P < 2 {
+				im.P = 8
+			}
+		}
 		c.Cfg = cfg
 	case "htj2k":
 		c.HTUID = rapid.SampledFrom([]string{"201", "202", "203"}).Draw(t, "uid")
@@ -255,6 +276,9 @@ func Check(c *Case) (o core.Outcome) {
 			if cfg.Lossy {
 				wantTransform = 0
 			}
+			if cfg.HT {
+				o.Label("j2k-ht-mode")
+			}
 		} else {
 			ts := map[string]*transfer.Syntax{"201": transfer.HTJ2KLossless, "202": transfer.HTJ2KLosslessRPCL, "203": transfer.HTJ2K}[c.HTUID]
 			cd, ok := dcodec.GetGlobalRegistry().GetCodec(ts)
@@ -353,6 +377,11 @@ func Check(c *Case) (o core.Outcome) {
 				o.Fail = fail("header", "component %d: Ssiz=%#02x XRsiz=%d YRsiz=%d; arguments precision %d signed=%v", i, b, j.XRsiz[i], j.YRsiz[i], im.P, im.Signed)
 				return
 			}
+		}
+		if cfg.HT && c.Enc == "j2k" {
+			// HT mode may impose its own progression and tile-part structure: only geometry,
+			// transform and code-block size are compared with the arguments
+			wantProg, wantLayers = j.COD.Prog, j.COD.Layers
 		}
 		if j.COD.Transform != wantTransform || j.COD.Prog != wantProg || j.COD.Layers != wantLayers || (levelsExact && j.COD.Levels != wantLevels) || j.COD.Levels > wantLevels ||
 			j.COD.CBW != cfg.CBW || j.COD.CBH != cfg.CBH {
